@@ -15,6 +15,7 @@ capture.  Functions with nested scopes that could capture a renamed name are lef
 from __future__ import annotations
 
 import ast
+import copy
 import difflib
 import hashlib
 import json
@@ -583,49 +584,58 @@ def unextract(trees):
     touched = []
     tag_no = 0
     for name, lst in defs.items():
-        if len(lst) != 1 or counts[name] != 1 or refs[name] != 1:
+        n_sites = counts[name]
+        if len(lst) != 1 or n_sites != refs[name] or not 1 <= n_sites <= 8:
             continue
         rel, qual, fn = lst[0]
         tree = trees[rel]
         is_method = "." in qual
         static = any(ast.unparse(d) == "staticmethod" for d in fn.decorator_list)
-        # find the statement whose whole value is the call
-        target = None
-        for owner in ast.walk(tree):
-            for field in ("body", "orelse", "finalbody"):
-                block = getattr(owner, field, None)
-                if not isinstance(block, list):
-                    continue
-                for i, st in enumerate(block):
-                    val = st.value if isinstance(st, (ast.Assign, ast.Expr, ast.Return)) else None
-                    if isinstance(val, ast.Call):
-                        nm = val.func.id if isinstance(val.func, ast.Name) else val.func.attr if isinstance(val.func, ast.Attribute) else None
-                        if nm == name and (isinstance(val.func, ast.Name) != is_method or (is_method and isinstance(val.func, ast.Attribute)
-                                                                                           and isinstance(val.func.value, ast.Name))):
-                            if is_method and not (isinstance(val.func, ast.Attribute) and val.func.value.id in ("self", "cls", qual.split(".")[0])):
-                                continue
-                            target = (block, i, st, val)
-        if target is None:
-            continue
-        block, i, st, call = target
-        # the call must sit outside the helper itself
-        if any(x is st for x in ast.walk(fn)):
-            continue
-        tag_no += 1
-        caller_fn = next((f_ for _, f_ in _functions(tree) if any(x is st for x in ast.walk(f_)) and not any(
-            x is st for g_ in ast.walk(f_) if g_ is not f_ and isinstance(g_, (ast.FunctionDef, ast.AsyncFunctionDef)) for x in ast.walk(g_))), None)
-        new = _inline_at(st, call, fn, f"in{tag_no}", is_method, static, caller_fn)
-        if new is None:
-            continue
-        block[i:i + 1] = new
-        done.append((rel, qual))
-        if caller_fn is not None and not any(caller_fn is f_ for f_ in touched):
-            touched.append(caller_fn)
-        # the definition is now uncalled: take it out of the tree so that no rule analyses it as a stage of its own
-        for owner in ast.walk(tree):
-            body = getattr(owner, "body", None)
-            if isinstance(body, list) and any(x is fn for x in body):
-                body[:] = [x for x in body if x is not fn] or [ast.Pass()]
+        if any(isinstance(x, (ast.Yield, ast.YieldFrom, ast.Await)) for x in ast.walk(fn)):
+            continue  # a generator's body cannot stand in for the generator object its call returns
+        if n_sites > 1 and sum(1 for _ in ast.walk(fn)) > 350:
+            continue  # helpers used more than once are inlined only when they are small
+        inlined = 0
+        while True:
+            # find a statement whose whole value is the call
+            target = None
+            for owner in ast.walk(tree):
+                for field in ("body", "orelse", "finalbody"):
+                    block = getattr(owner, field, None)
+                    if not isinstance(block, list):
+                        continue
+                    for i, st in enumerate(block):
+                        val = st.value if isinstance(st, (ast.Assign, ast.Expr, ast.Return)) else None
+                        if isinstance(val, ast.Call):
+                            nm = val.func.id if isinstance(val.func, ast.Name) else val.func.attr if isinstance(val.func, ast.Attribute) else None
+                            if nm == name and (isinstance(val.func, ast.Name) != is_method or (is_method and isinstance(val.func, ast.Attribute)
+                                                                                               and isinstance(val.func.value, ast.Name))):
+                                if is_method and not (isinstance(val.func, ast.Attribute) and val.func.value.id in ("self", "cls", qual.split(".")[0])):
+                                    continue
+                                if any(x is st for x in ast.walk(fn)):
+                                    continue  # the call must sit outside the helper itself
+                                target = (block, i, st, val)
+            if target is None:
+                break
+            block, i, st, call = target
+            tag_no += 1
+            caller_fn = next((f_ for _, f_ in _functions(tree) if any(x is st for x in ast.walk(f_)) and not any(
+                x is st for g_ in ast.walk(f_) if g_ is not f_ and isinstance(g_, (ast.FunctionDef, ast.AsyncFunctionDef)) for x in ast.walk(g_))), None)
+            new = _inline_at(st, call, copy.deepcopy(fn) if n_sites > 1 else fn, f"in{tag_no}", is_method, static, caller_fn)
+            if new is None:
+                break
+            block[i:i + 1] = new
+            inlined += 1
+            if caller_fn is not None and not any(caller_fn is f_ for f_ in touched):
+                touched.append(caller_fn)
+        if inlined:
+            done.append((rel, qual))
+        if inlined == n_sites:
+            # the definition is now uncalled: take it out of the tree so that no rule analyses it as a stage of its own
+            for owner in ast.walk(tree):
+                body = getattr(owner, "body", None)
+                if isinstance(body, list) and any(x is fn for x in body):
+                    body[:] = [x for x in body if x is not fn] or [ast.Pass()]
     for f_ in touched:
         _renumber(f_)
     return done
